@@ -248,7 +248,7 @@ func runChecks(l *Loaded, specs []*RunSpec, known []KnownFinding, opt options) *
 			fs := bySig[s]
 			// smallest models first: fewest nondet values
 			sort.SliceStable(fs, func(i, j int) bool { return len(fs[i].Model) < len(fs[j].Model) })
-			for i := 0; i < len(fs) && i < 2; i++ {
+			for i := 0; i < len(fs) && i < 4; i++ {
 				cases = append(cases, caseOf(fs[i]))
 				cf = append(cf, fs[i])
 			}
